@@ -794,7 +794,10 @@ func doAPI(req *Req) (resp Resp) {
 			case "set":
 				var a r.Element = value.NewNull()
 				if len(args) > 0 {
-					a = args[0]
+					// a program can only write a property through an assignment, and assignment
+					// stores a copy: mirror that (a receiver stored into itself by reference is
+					// not something the language can express)
+					a = value.DuplicateValue(args[0])
 				}
 				err = recv.SetProperty(st.Name, a)
 				noValue = true
